@@ -24,24 +24,47 @@ type c30Waker struct {
 
 // c30WakerCallbackOK: the callback wakes the waiters of condField on every path, holding a mutex (a
 // broadcast made without the mutex can fall between the waiter's deadline test and its Wait and be lost).
+//
+// The callback is looked at as an inlined view: the lock / flag / Broadcast / unlock sequence may be
+// written in the literal handed to time.AfterFunc or in a method the literal calls (func() { s.expire(&flag) }).
 func c30WakerCallbackOK(fn *core.FuncInfo, condField string) (bool, string) {
-	var bc []*core.CallSite
-	for _, b := range fn.CallsTo("sync.Cond.Broadcast", "sync.Cond.Signal") {
-		if fieldNameOf(fn, b.Recv()) == condField && !b.InGo {
-			bc = append(bc, b)
+	wakes := func(g *core.FuncInfo) []*core.CallSite {
+		var out []*core.CallSite
+		for _, b := range g.CallsTo("sync.Cond.Broadcast", "sync.Cond.Signal") {
+			if fieldNameOf(g, b.Recv()) == condField && !b.InGo {
+				out = append(out, b)
+			}
 		}
+		return out
 	}
-	if len(bc) == 0 {
+	sites := c30ViewSites(&c30Scope{F: fn}, 2, func(sc *c30Scope) []c30Site {
+		var out []c30Site
+		for _, b := range wakes(sc.F) {
+			out = append(out, c30Site{Hops: []c30Hop{{sc, b.Pt}}, Pos: b.Pos()})
+		}
+		return out
+	})
+	if len(sites) == 0 {
 		return false, "does not wake " + short(condField)
 	}
-	if _, escapes := (core.PathQuery{F: fn, From: fn.Entry(), Avoid: core.PointSet(core.Points(bc)...), TargetExit: true}).Find(); escapes {
+	must := c30MustPoints(fn, 2, func(g *core.FuncInfo) []core.Point { return core.Points(wakes(g)) })
+	if _, escapes := (core.PathQuery{F: fn, From: fn.Entry(), Avoid: core.PointSet(must...), TargetExit: true}).Find(); escapes || len(must) == 0 {
 		return false, "does not broadcast on every path"
 	}
-	locks := fn.SitesMust(func(cs *core.CallSite) bool {
+	isLock := func(cs *core.CallSite) bool {
 		return cs.Name == "sync.Mutex.Lock" || cs.Name == "sync.RWMutex.Lock" || cs.Name == "sync.Locker.Lock"
-	}, 1)
-	for _, b := range bc {
-		if ok, _ := fn.MustPassBefore(locks, b.Pt); !ok || len(locks) == 0 {
+	}
+	for _, s := range sites {
+		// at some level of the call chain that leads to the broadcast the mutex has certainly been taken
+		held := false
+		for _, h := range s.Hops {
+			locks := h.Sc.F.SitesMust(isLock, 1)
+			if ok, _ := h.Sc.F.MustPassBefore(locks, h.Pt); ok && len(locks) > 0 {
+				held = true
+				break
+			}
+		}
+		if !held {
 			return false, "broadcasts without holding the mutex (wake-up can be lost between the deadline check and Wait)"
 		}
 	}
@@ -117,16 +140,96 @@ func c30WakerWrites(f *core.FuncInfo, wk c30Waker) map[types.Object]bool {
 			}
 		}
 	}
-	for _, a := range assignments(wk.Fn) {
+	c30WrittenThrough(wk.Fn, byParam, 2, out)
+	return out
+}
+
+// c30WrittenThrough adds to out the variables that g writes: variables it assigns by name (its own or
+// captured ones) and the variables that its pointer parameters stand for (byParam) when it stores through
+// them — in g itself or in the module functions / closures it calls, to which it may hand the address of
+// a variable (s.expire(&flag)) or pass a pointer parameter along.
+func c30WrittenThrough(g *core.FuncInfo, byParam map[*types.Var]*types.Var, depth int, out map[types.Object]bool) {
+	for _, a := range assignments(g) {
 		lhs := ast.Unparen(a.LHS)
 		if st, ok := lhs.(*ast.StarExpr); ok {
-			if pv := varOf(wk.Fn, st.X); pv != nil && byParam[pv] != nil {
+			if pv := varOf(g, st.X); pv != nil && byParam[pv] != nil {
 				out[byParam[pv]] = true
 			}
 			continue
 		}
-		if v := varOf(wk.Fn, lhs); v != nil {
+		if v := varOf(g, lhs); v != nil {
 			out[v] = true
+		}
+	}
+	if depth <= 0 {
+		return
+	}
+	for _, cs := range g.Calls() {
+		h, closure := c30CalleeInfo(g, cs.Call)
+		if h == nil || h == g {
+			continue
+		}
+		sub := map[*types.Var]*types.Var{}
+		if closure {
+			for k, v := range byParam {
+				sub[k] = v
+			}
+		}
+		for i, arg := range cs.Call.Args {
+			pv := h.Param(i)
+			if pv == nil {
+				continue
+			}
+			if u, ok := ast.Unparen(arg).(*ast.UnaryExpr); ok && u.Op == token.AND {
+				if v := varOf(g, u.X); v != nil {
+					sub[pv] = v
+				}
+			} else if v := varOf(g, arg); v != nil && byParam[v] != nil {
+				sub[pv] = byParam[v]
+			}
+		}
+		c30WrittenThrough(h, sub, depth-1, out)
+	}
+}
+
+// c30TimerStops lists the points of f at which one of the timers is cancelled (time.Timer.Stop on the
+// variable, in f or in a module function / closure that f calls and hands the timer to). Calls that f
+// defers are not listed: they run when f returns. Inside a helper a deferred Stop counts (it runs when
+// the helper returns, i.e. at the call in f).
+func c30TimerStops(f *core.FuncInfo, timers map[*types.Var]bool, depth int, inHelper bool) []core.Point {
+	var out []core.Point
+	for _, cs := range f.Calls() {
+		if cs.InGo || cs.InDefer && !inHelper {
+			continue
+		}
+		if cs.Name == "time.Timer.Stop" {
+			if timers[varOfRaw(f, cs.Recv())] {
+				out = append(out, cs.Pt)
+			}
+			continue
+		}
+		if depth <= 0 {
+			continue
+		}
+		g, closure := c30CalleeInfo(f, cs.Call)
+		if g == nil || g == f {
+			continue
+		}
+		sub := map[*types.Var]bool{}
+		if closure {
+			for v := range timers {
+				sub[v] = true
+			}
+		}
+		for i, arg := range cs.Call.Args {
+			if v := varOfRaw(f, arg); v != nil && timers[v] {
+				if pv := g.Param(i); pv != nil {
+					sub[pv] = true
+				}
+			}
+		}
+		if len(sub) > 0 && len(c30TimerStops(g, sub, depth-1, true)) > 0 {
+			out = append(out, cs.Pt)
 		}
 	}
 	return out
@@ -192,6 +295,41 @@ func checkTimedWait(c *core.Ctx, f *core.FuncInfo, w *core.CallSite) {
 	c.Check(!found, "T18|Acquire|waker armed before Wait", "T18 TimedWait", w.Pos(),
 		fmt.Sprintf("every path to cond.Wait arms a time.AfterFunc waker that broadcasts on %s under the mutex", short(condField)),
 		"cond.Wait reachable without the deadline waker armed: "+f.DescribePath(path))
+	// still armed when the wait is (re-)entered: a waker that has been cancelled (timer.Stop() that is not
+	// deferred to the return) must be armed again before the next Wait — the non-nil timer variable proves
+	// nothing any more, the timer it holds is dead. Otherwise a caller that was woken once (by a release
+	// too small for it, or by another waiter's broadcast) goes back to sleep with no pending waker and
+	// blocks past its timeout if nothing else is released. After `timer = nil` the variable test is
+	// meaningful again.
+	stops := c30TimerStops(f, timerVars, 2, false)
+	var nilAssigns []core.Point
+	for v := range timerVars {
+		for _, a := range assignsToVar(f, v) {
+			if a.RHS != nil && core.IsNil(f.Info(), a.RHS) {
+				nilAssigns = append(nilAssigns, a.Pt)
+			}
+		}
+	}
+	disarmed, found2 := []core.Point(nil), false
+	for _, sp := range stops {
+		if found2 {
+			break
+		}
+		avoid := core.PointSet(append(append([]core.Point(nil), armPts...), nilAssigns...)...)
+		disarmed, found2 = core.PathQuery{F: f, From: sp, FromAfter: true, Target: core.PointSet(w.Pt), Avoid: avoid}.Find()
+		for _, np := range nilAssigns {
+			if found2 || !f.CanReach(sp, np) {
+				continue
+			}
+			disarmed, found2 = core.PathQuery{F: f, From: np, FromAfter: true, Target: core.PointSet(w.Pt), Avoid: core.PointSet(armPts...), AvoidEdge: armedEdge}.Find()
+		}
+	}
+	pass := "the deadline waker is cancelled only when the waiting function returns (deferred Stop or none)"
+	if len(stops) > 0 {
+		pass = "every path from a cancellation of the deadline waker back to cond.Wait arms a new one"
+	}
+	c.Check(!found2, "T18|Acquire|waker still armed at Wait", "T18 TimedWait", w.Pos(), pass,
+		"the deadline waker is stopped and cond.Wait is entered again without arming a new one: a caller woken once before its deadline (insufficient release, another waiter's broadcast) then sleeps with no pending waker and blocks past its timeout: "+f.DescribePath(disarmed))
 	// deadline re-checked between waits: a branch whose outcome depends on time.Now/Since/Until or on a
 	// variable the waker writes (the test may be made by a predicate helper or a local closure)
 	wakerVars := map[types.Object]bool{}
